@@ -22,6 +22,13 @@ class Oracle(C01.Oracle):
         "guards and parse steps of the corpus are the predicate value >= 10 (executed from the harness MIR; the spec states it independently)",
     ]
 
+    def assume(self, ex, g, words, parser):
+        C01.Oracle.assume(self, ex, g, words, parser)
+        if g.name == "e1":
+            # the repeated env-backed argument on the line is C18's known finding; not re-reported here
+            from .tokdiff import assume_not_named
+            assume_not_named(ex, words, [ord("d")], ["delta"])
+
     def judge(self, ex, g, words, cls, payload, state, report, out):
         C01.Oracle.judge(self, ex, g, words, cls, payload, state, report, out)
         # message clause: a failure whose cause is a present-but-invalid value carries the right message
@@ -69,18 +76,53 @@ class Oracle(C01.Oracle):
 
 
 def make_jobs(tier, seed, build):
-    return C01.make_jobs(tier, seed, build, C06_GRAMMARS)
+    from . import C05
+    jobs = C01.make_jobs(tier, seed, build, C06_GRAMMARS)
+    for j in jobs:
+        j["kind"] = "corpus"
+    # env-backed items: "absent" also means "variable unset"
+    g = CORPUS["e1"]
+    for n in range(0, (1 if tier == "quick" else 2) + 1):
+        for shape in tok.all_shapes(n, g.decl):
+            jobs.append({"id": "e1:%s" % ",".join(shape), "grammar": "e1", "shape": shape, "fs": "none", "kind": "corpus"})
+    # wrapper contracts with a nondeterministic inner parser (shared with C05)
+    for j in C05.make_jobs(tier, seed, build):
+        if j["kind"] == "wrap":
+            jobs.append(j)
+    return jobs
 
 
 def run_job(job, build):
+    if job["kind"] == "wrap":
+        from . import C05
+        return C05.run_wrap_job(job, build)
     return run_tok_job(job, build, CORPUS, Oracle())
 
 
 def finish(results, jobs, build, out, tier, seed, wall):
     nmax = 3 if tier == "quick" else 4
+    byid = {j["id"]: j for j in jobs}
+    wraps = [r for r in results if byid.get(r["job"], {}).get("kind") == "wrap"]
+    results = [r for r in results if byid.get(r["job"], {}).get("kind") != "wrap"]
+    for r in wraps:
+        if r.get("error"):
+            out.inconc("job %s crashed: %s" % (r["job"], r["error"]))
+        for w in r.get("inconclusive", []):
+            out.inconc("%s: %s" % (r["job"], w))
+        for c in r.get("cex", []):
+            out.violation("%s:%s:%s" % (c["kind"], ",".join(c["shape"]), c["info"][:80]), "%s on shape %s: %s" % (c["kind"], c["shape"], c["info"]), c)
+    jobs = [j for j in jobs if j.get("kind") != "wrap"]
     ev = finish_tok(PROP, results, jobs, build, out, tier, seed, wall, Oracle(), CORPUS,
                     {"items": "0..=%d" % nmax, "grammars": len(C06_GRAMMARS), "step_budget_per_path": 600000})
     from .framework import merge_counts
     ev["coverage"]["messages_at_render_cut"] = merge_counts(results, "messages")
     ev["coverage"]["message_obligations"] = sum(r.get("message_obligations", 0) for r in results)
+    from . import framework as fw
+    ws = fw.merge_stats(wraps)
+    ev["coverage"]["wrapper_contract_jobs"] = len(wraps)
+    ev["coverage"]["wrapper_contract_paths"] = ws["paths"]
+    ev["coverage"]["wrapper_contract_obligations"] = sum(r.get("obligations", 0) for r in wraps)
+    ev["coverage"]["evaluations"] += ws["queries"]
+    ev["coverage"]["states"] += ws["paths"]
+    ev["assumptions"].append("wrapper contracts: the inner parser is a nondeterministic model (any subset of present in-scope items consumed, Ok or any Message variant with typed payloads); defaulting is allowed only for (Missing and nothing consumed) or (catchable non-Missing) or catch")
     return ev
